@@ -20,7 +20,7 @@ def run(tier, seed):
     kinds = ([os.path.join(VERIF, "contracts", f) for f in ("node_port.py", "tys.py", "ops.py")],
              ["hugr.ops.DataflowOp.port_kind", "hugr.ops.Call.port_kind", "hugr.ops.LoadFunc.port_kind", "hugr.ops.LoadConst.port_kind", "hugr.ops.Const.port_kind",
               "hugr.ops.FuncDefn.port_kind", "hugr.ops.FuncDecl.port_kind", "hugr.ops.DataflowBlock.port_kind"])
-    standard_flow(res, FILES, TARGETS, None, bounded_modules=[("bounded.c20", 300, 1800)], more=[kinds])
+    standard_flow(res, FILES, TARGETS, None, bounded_modules=[("bounded.c20", 900, 1800)], more=[kinds])
     res.level = "other"
     res.explanation = ("Proved from the real source: the number of port cells of a node is the number of ports its operation has per its signature (value ports, static input, the function / constant "
                        "output) and never less than the connected ports (two genuine defects were repaired: cells followed the connected ports only; declaring a function's outputs changed the "
